@@ -23,26 +23,29 @@ from concurrent.futures import ThreadPoolExecutor
 import numpy as np
 from pipefunc import PipeFunc, Pipeline
 
-from .. import boot, findings, gen_dag, gen_map, terms
+from .. import boot, gen_dag, gen_map, terms
 from ..acc import Acc
 
 ID = "C12"
 LEVEL = "fault_enumeration"
 TECHNIQUE = ("exhaustive (valid case x single-fault operator x position x run-folder start state) product; each faulted case is confirmed "
              "ill-formed by a reference validity check independent of pipefunc; oracle = raises, empty call log, byte-identical run folder")
-RULE = ("valid cases: G-DAG N<=2 (every base pipeline and every single decoration; thorough N<=3 undecorated) and G-MAP (quick: all 1-function "
+RULE = ("valid cases: G-DAG N<=2 (every base pipeline and every single decoration; thorough adds N=3 undecorated) and G-MAP (quick: all 1-function "
         "pipelines + the 2-function pipelines whose second function consumes only `a`; thorough: every 2-function pipeline). operators, each at "
-        "every position: duplicate output name (every output -> every other output name, incl. the sibling of a tuple), output named like each own "
-        "parameter, back edge closing a cycle / self loop, two different defaults for a shared root (signature/PipeFunc default, 4 combinations), "
-        "MapSpec naming a non-parameter (replace each input / add one), MapSpec missing an output, MapSpec output renamed / swapped (each given on the "
-        "PipeFunc and as (PipeFunc, mapspec) to Pipeline), inconsistent axes in one consumer (rename / swap / rank-1 / rank+1 of each indexed "
-        "array named by >= 2 MapSpecs), bound parameter in a MapSpec; construction faults in every listing order. run-time: dropped input (each "
-        "root; run: per requested output), surplus input, zipped axis resized +-1 (each root x axis), rank changed (list->2-D ndarray, scalar, "
-        "2-D ndarray->nested list / 1-D / 3-D), unknown storage (string, dict default, dict per output), executor with parallel=False (object, dict "
-        "default, dict per output), fixed_indices (unknown axis, index = size and -size-1 on every root axis, every reduced axis); each run-time map "
-        "fault x start state {no folder, fresh folder, folder holding a previous COMPLETE run opened with cleanup=False}. non-trivial = the reference "
-        "confirms the faulted case ill-formed (all evaluated cases are; others are filtered); distinct = distinct (generator, operator, sub-kind, API, "
-        "start state, exception type, raising function, feature set of the pipeline)")
+        "every position: duplicate output name (every output -> every other output name, incl. the sibling inside a tuple), output named like each "
+        "own parameter, back edge closing a cycle / self loop, two different defaults for a shared root (signature/PipeFunc default, 4 "
+        "combinations), MapSpec naming a non-parameter (replace each input / add one), MapSpec missing an output, MapSpec output renamed / swapped "
+        "(each given on the PipeFunc and as (PipeFunc, mapspec) to Pipeline), inconsistent axes in one consumer (rename / swap / rank-1 / rank+1 of "
+        "each indexed array named by >= 2 MapSpecs), bound parameter in a MapSpec; Pipeline-level construction faults in both listing orders. "
+        "run-time: dropped input (each root; run(): per requested output, parameters also listed in reverse order), surplus input, zipped axis "
+        "resized +-1 (each root x axis), rank changed (list->2-D ndarray, scalar, 2-D ndarray->nested list / 1-D / 3-D), unknown storage (string, "
+        "dict default, dict per output), executor with parallel=False (object, dict default, dict per output), fixed_indices (unknown axis, index = "
+        "size on every root axis, every reduced axis); each run-time map fault x start state {no folder, folder holding a previous COMPLETE run "
+        "opened with cleanup=False} (+ fresh folder for the storage operator). rich bound (thorough, all stages but the last): additionally "
+        "PipeFunc-level faults in both listing orders, the fresh-folder start for every operator, index -size-1, surplus keyword with reversed "
+        "parameters. non-trivial = the reference validity check of this module confirms the faulted case ill-formed (cases it finds well-formed are "
+        "filtered and counted in notes, never evaluated); distinct = distinct (generator, operator, sub-kind, API, start state, exception type, "
+        "raising function, feature set of the pipeline)")
 ASSUMPTIONS = ["reference validity checks in this module (output-name multiset, dependency-graph cycle over unbound edges, default table, "
                "MapSpec-vs-signature name sets, per-array axis table, shape inference with list=(len,) / ndarray=.shape, reduced-axis table)",
                "'unknown storage' = a name that is not in pipefunc.map.storage_registry; 'bogus' is used",
@@ -54,9 +57,10 @@ BUDGET = {"quick": 100.0, "thorough": 900.0}
 BOGUS = "bogus"
 SURPLUS = "zz"
 STARTS = ("none", "fresh", "prior")
-# quick bound: faults raised by the PipeFunc constructor (before a Pipeline exists; incl. a duplicate inside one tuple and a self loop) are
-# tried in the natural listing order only, the 'fresh folder' start state only for the storage operator (the only one whose detection point
-# depends on it), and the out-of-range fixed index is `size` (thorough adds `-size-1`); thorough: everything
+# quick bound (also used for the last and largest stage of the thorough tier): faults raised by the PipeFunc constructor (before a Pipeline
+# exists; incl. a duplicate inside one tuple and a self loop) are tried in the natural listing order only; the 'fresh folder' start state is
+# used for the storage operator only (the only one whose detection point depends on it); the surplus keyword of run() is tried in the natural parameter order only; the out-of-range fixed index is `size`.
+# rich bound (thorough, all other stages): both listing orders and all three start states for everything, index `-size-1` as well.
 RICH = False
 PIPEFUNC_LEVEL_OPS = ("out-own-param", "ms-non-parameter", "ms-missing-output", "ms-output-disagree", "bound-in-mapspec")
 
@@ -279,7 +283,8 @@ def dag_runtime_faults(spec):
                 continue
             for p in used:
                 yield "drop-input", {"api": "run", "out": out_j, "p": p, "rev": rev}
-            yield "surplus-input", {"api": "run", "out": out_j, "rev": rev}
+            if RICH or not rev:
+                yield "surplus-input", {"api": "run", "out": out_j, "rev": rev}
     for p in roots:
         for start in _starts("drop-input"):
             yield "drop-input", {"api": "map", "p": p, "start": start}
@@ -963,7 +968,7 @@ def specs_for(stage):
 
 
 STAGES = {"quick": ["dag-N1", "dag-N2", "map-1-function", "map-2-functions-g(a)"],
-          "thorough": ["dag-N1", "dag-N2", "map-1-function", "map-2-functions-g(a)", "map-2-functions-rest", "dag-N3-undecorated"]}
+          "thorough": ["dag-N1", "dag-N2", "map-1-function", "map-2-functions-g(a)", "dag-N3-undecorated", "map-2-functions-rest"]}
 NCHUNK = {"dag-N1": 4, "dag-N2": 60, "dag-N3-undecorated": 200, "map-1-function": 32, "map-2-functions-g(a)": 128, "map-2-functions-rest": 1600}
 
 
@@ -982,7 +987,8 @@ def plan(tier, seed):
     for st in STAGES[tier]:
         stage_specs(st)
         n = NCHUNK[st]
-        us = [(st, (st, tier, c, n)) for c in range(n)]
+        rich = tier == "thorough" and st != "map-2-functions-rest"
+        us = [(st, (st, rich, c, n)) for c in range(n)]
         r = seed % n
         out.extend(us[r:] + us[:r])
     return out
@@ -1031,8 +1037,8 @@ def run_spec(gen, spec, acc, sample=False):
 
 def run_unit(unit):
     global RICH  # noqa: PLW0603
-    st, tier, c, n = unit
-    RICH = tier == "thorough"
+    st, rich, c, n = unit
+    RICH = bool(rich)
     acc = Acc()
     gen, specs = stage_specs(st)
     for k, spec in enumerate(specs):
